@@ -165,11 +165,9 @@ QUICK_EXTRA = [
     ("o", ("f", ("S",)), ("S",)),                                 # the with_filter doc example (depth 2)
     ("o", ("x", ("n", ("S",))), ("S",)),                          # enabled outer gate around a disabled inner one: no fall-back
     ("o", ("f", ("x", ("S",))), ("o", ("n", ("S",)), ("S",))),   # or_else chain
-    ("o", ("n", ("a", ("S",), ("S",))), ("S",)),
-    ("x", ("o", ("f", ("S",)), ("S",))),
-    ("f", ("a", ("x", ("S",)), ("S",))),
-    ("a", ("S",), ("o", ("n", ("S",)), ("f", ("S",)))),
 ]
+# depth-3 `u`-collapsed trees that run in the quick tier (all of them run in the thorough tier)
+QUICK_U3 = ["uuu0", "uou0u1", "uau0u1", "ouu0uu1", "auu0uu1", "ou0uu1", "ouu01"]
 
 
 def expressions(tier):
@@ -183,14 +181,17 @@ def expressions(tier):
             seen.add(nm)
             out.append((nm, t, text(le), le))
 
-    # quick: every concrete expression of depth <= 1, the hand-picked ones, and every `u`-collapsed tree with
-    # <= 2 leaves to depth 3 (each stands for all 3^k choices of its unary nodes)
+    # quick: every concrete expression of depth <= 1, the hand-picked ones, every `u`-collapsed tree with <= 2 leaves
+    # to depth 2 and seven of depth 3 (each stands for all 3^k choices of its unary nodes)
     for e in shapes(1, 2, UN_CONCRETE):
         add(e, "quick")
     for e in QUICK_EXTRA:
         add(e, "quick")
-    for e in shapes(3, 2, ["u"]):
+    for e in shapes(2, 2, ["u"]):
         add(e, "quick")
+    for e in shapes(3, 2, ["u"]):
+        if name(label(e)) in QUICK_U3:
+            add(e, "quick")
     # thorough: every concrete expression to depth 2 (<= 4 leaves), every collapsed tree to depth 3 with <= 4 leaves
     for e in shapes(2, 4, UN_CONCRETE):
         add(e, "thorough")
